@@ -1,5 +1,5 @@
 PROPS = ["CTV.Props.C07", "CTV.Props.C07b", "CTV.Props.C07Tie", "CTV.Model.HandlerSpec", "CTV.Model.HandlerCheckSpec"]
-HARNESS = [dict(pkg="./trillian/ctfe/", test="TestVerifC07")]
+HARNESS = [dict(pkg="./trillian/ctfe/", test="TestVerifC07"), dict(pkg="./client/", test="TestVerifC07Client")]
 RULE = ("get-entries requests through the real AppHandler with a scripted backend; start/end drawn from int64 boundary sets "
         "(0, m±1, k·m±1, 2^31, 2^62, 2^63-m-1..2^63-1, negatives), malformed strings, max in {1,2,3,7,1000,2^31,2^62,2^63-1}, "
         "alignment on/off, tree sizes around start, backend reply honest/short/surplus/mis-indexed/empty; "
